@@ -263,7 +263,7 @@ func TestVerif_C04_Pool(t *testing.T) {
 	fnSendRequest = c04Transport
 	defer func() { fnSendRequest = old }()
 
-	total := r.N(168, 3360)
+	total := r.N(252, 3360)
 	for i := 0; i < total; i++ {
 		if !r.Mine(i) {
 			continue
